@@ -77,6 +77,9 @@ type Step struct {
 	// Prepared: db.Prepare + stmt.Exec/Query instead of db.Exec/Query
 	Prepared bool `json:"prepared,omitempty"`
 	NoCtx    bool `json:"no_ctx,omitempty"` // use context.Background() even inside a global transaction
+	// Cancelable: the step runs under its own cancellable child context, which a db_fault with action
+	// "cancel" cancels just before refusing the matching statement
+	Cancelable bool `json:"cancelable,omitempty"`
 
 	// gtx
 	Name        string `json:"name,omitempty"`
@@ -688,6 +691,12 @@ func (r *runner) target(ctx context.Context, s Step) (execer, error) {
 
 func (r *runner) simple(ctx context.Context, s Step, path string, res *StepResult) error {
 	ctx = r.stepCtx(ctx, s)
+	if s.Cancelable {
+		var cancel context.CancelFunc
+		ctx, cancel = context.WithCancel(ctx)
+		r.srv.SetCancel(cancel)
+		defer func() { r.srv.SetCancel(nil); cancel() }()
+	}
 	via := r.via(s)
 	switch s.Op {
 	case "exec", "query":
